@@ -680,10 +680,11 @@ ODD_LAYOUTS = ("inner",) if KNOWN_DEFECT_similarity_check_compares_only_common_p
                        "component); concrete pairwise different heights; symbolic flux in [1e-3,1e3], densities in "
                        "[1e-6,1], component temperatures in [25,750] C; the additional component has concrete content",
          stubs=STUBS, qtimeout_ms=20000,
-         instances={"quick": [dict(n=3, kind="flux", layout="inner"), dict(n=4, kind="volume", layout="inner")],
-                    "thorough": [dict(n=n, kind=k, layout=l, pattern=p) for n in (3, 4) for k in ("flux", "volume")
-                                 for l in ODD_LAYOUTS for p in ("typical", "shared")]})
-def component_average_only_when_all_members_are_alike(ctx, n, kind, layout, pattern="typical"):
+         instances={"quick": [dict(n=3, kind="flux", layout="inner", pattern="sparse"),
+                              dict(n=4, kind="volume", layout="inner")],
+                    "thorough": [dict(n=n, kind=k, layout=l, pattern=p, temps=True) for n in (3, 4)
+                                 for k in ("flux", "volume") for l in ODD_LAYOUTS for p in ("typical", "shared")]})
+def component_average_only_when_all_members_are_alike(ctx, n, kind, layout, pattern="typical", temps=False):
     hs = heights(n)
     pos = ctx.choice("oddMember", list(range(n)) + [None])        # which member has the other layout (None: all alike)
     members = [Member(ctx, k, "fuel", pattern, h=hs[k], burn=False, zeroFlux=False, zeroAt=(),
@@ -713,6 +714,8 @@ def component_average_only_when_all_members_are_alike(ctx, n, kind, layout, patt
                         "all are alike, block-level otherwise)" % nuc, rep.getNumberDensity(nuc), want, scale=scale)
         ctx.check("N(%s) within [min,max] of the members" % nuc,
                   AND(rep.getNumberDensity(nuc) >= MIN(*xs) - 1e-12, rep.getNumberDensity(nuc) <= MAX(*xs) + 1e-12))
+    if not temps:
+        return          # (quick tier: the component-level values and the nuclide temperatures have harnesses of their own)
     if alike:
         for rc in rep:
             for nuc in NUCS:
